@@ -327,39 +327,35 @@ theorem Sim.cons_sig {ρ} {t t' : Lexed} {r r'} (ht : isTrivia t.tok = false) (t
 
 theorem Sim.nil {ρ} : Sim ρ [] [] := Sim.done AllTrivia.nil AllTrivia.nil GapRel.nil
 
-/-- the two lists have the same tokens (kind, indent), lines related by `ρ`; bytes and columns are free -/
+/-- the two lists have the same token kinds; significant tokens keep their indent and have their
+lines related by `ρ`; bytes, columns and the bookkeeping of trivia tokens are free -/
 inductive Moved (ρ : Nat → Nat → Prop) : List Lexed → List Lexed → Prop
   | nil : Moved ρ [] []
-  | cons {t t' l l'} : TokRel ρ t t' → Moved ρ l l' → Moved ρ (t :: l) (t' :: l')
+  | cons {t t' l l'} : t'.tok = t.tok → (isTrivia t.tok = false → TokRel ρ t t') → Moved ρ l l' →
+      Moved ρ (t :: l) (t' :: l')
 
 theorem Moved.sim {ρ l l'} (m : Moved ρ l l') : Sim ρ l l' := by
   induction m with
   | nil => exact Sim.nil
-  | @cons t t' l l' tr _ ih =>
+  | @cons t t' l l' he tr _ ih =>
     cases ht : isTrivia t.tok with
-    | true => exact Sim.cons_trivia ht tr.tok ih
-    | false => exact Sim.cons_sig ht tr ih
+    | true => exact Sim.cons_trivia ht he ih
+    | false => exact Sim.cons_sig ht (tr ht) ih
 
-/-- the lines of `pre` are fixed points of `ρ` -/
+/-- the lines of the significant tokens of `pre` are fixed points of `ρ` -/
 def Fixed (ρ : Nat → Nat → Prop) (pre : List Lexed) : Prop :=
-  ∀ t ∈ pre, ρ t.span.start.line t.span.start.line ∧ ρ t.span.stop.line t.span.stop.line
-
-theorem Fixed.moved {ρ pre} (h : Fixed ρ pre) : Moved ρ pre pre := by
-  induction pre with
-  | nil => exact Moved.nil
-  | cons t l ih =>
-    exact Moved.cons ⟨rfl, rfl, (h t (List.mem_cons_self ..)).1, (h t (List.mem_cons_self ..)).2⟩
-      (ih (fun x hx => h x (List.mem_cons_of_mem _ hx)))
+  ∀ t ∈ pre, isTrivia t.tok = false → ρ t.span.start.line t.span.start.line ∧ ρ t.span.stop.line t.span.stop.line
 
 theorem Sim.prefix {ρ pre l l'} (h : Fixed ρ pre) (s : Sim ρ l l') : Sim ρ (pre ++ l) (pre ++ l') := by
   induction pre with
   | nil => exact s
   | cons t p ih =>
     have hp : Fixed ρ p := fun x hx => h x (List.mem_cons_of_mem _ hx)
-    have ht := h t (List.mem_cons_self ..)
     cases hs : isTrivia t.tok with
     | true => exact Sim.cons_trivia hs rfl (ih hp)
-    | false => exact Sim.cons_sig hs ⟨rfl, rfl, ht.1, ht.2⟩ (ih hp)
+    | false =>
+      have ht := h t (List.mem_cons_self ..) hs
+      exact Sim.cons_sig hs ⟨rfl, rfl, ht.1, ht.2⟩ (ih hp)
 
 /-- replace the leading gap (which contains a line break on both sides) -/
 theorem Sim.regap {ρ} {n n' : Lexed} {l l'} (ins ins' : List Lexed) (hn : n.tok = .newLine) (hn' : n'.tok = .newLine)
@@ -488,7 +484,7 @@ theorem consumeSameLine_nl {g : List Lexed} (hg : AllTrivia g) (h : hasNL g = tr
   rw [e, List.append_assoc, List.cons_append, consumeSameLineLoop_ws a x (b ++ rest) ha (nl_not_ws hx) cur, hx]
 
 theorem consumeUntilSameLine_nl {g : List Lexed} (hg : AllTrivia g) (h : hasNL g = true) (rest : List Lexed) (cur : Lexed) :
-    (consumeUntilSameLineLoop cur (g ++ rest)).rest.head?.map (·.tok) = some .newLine := by
+    (consumeUntilSameLineLoop cur (g ++ rest)).rest[0]?.map (·.tok) = some .newLine := by
   obtain ⟨a, x, b, e, ha, hx⟩ := split_at_nl hg h
   rw [e, List.append_assoc, List.cons_append, consumeUntilSameLineLoop_ws a x (b ++ rest) ha (nl_not_ws hx) cur]
   simp [hx]
